@@ -43,26 +43,26 @@ def model_text(ident, role):
     """three-state model in which `ident` plays `role`; other names are fixed"""
     if role == "state":
         return (f"states({ident}=0.5, z=2, w=1)\nparameters(p=1.5, q=0.25)\nu = p*{ident} + z\n"
-                f"d{ident}_dt = -q*{ident} + u\ndz_dt = Conditional(Gt({ident}, 0), -z, z) + {ident}*w\ndw_dt = u - w*abs({ident})\n")
+                f"d{ident}_dt = -q*{ident} + u\ndz_dt = Conditional(Gt({ident}, 0), -z, z) + {ident}*w\ndw_dt = u - w*abs({ident}) + z**3 + Mod(z, 2.0)\n")
     if role == "parameter":
         return (f"states(x=0.5, z=2, w=1)\nparameters({ident}=1.5, q=0.25)\nu = {ident}*x + z\n"
-                f"dx_dt = -q*x + u\ndz_dt = Conditional(Gt(x, 0), -z, z) + {ident}*w\ndw_dt = u - w*abs({ident})\n")
+                f"dx_dt = -q*x + u\ndz_dt = Conditional(Gt(x, 0), -z, z) + {ident}*w\ndw_dt = u - w*abs({ident}) + z**3 + Mod(z, 2.0)\n")
     if role == "conditional":
         # an intermediate defined directly by a conditional (printed through the Piecewise-assignment path)
         return (f"states(x=0.5, z=2, w=1)\nparameters(p=1.5, q=0.25)\n{ident} = Conditional(Gt(x, 0), p*x + z, z - 1)\nv2 = {ident}*{ident} + 1\n"
-                f"dx_dt = -q*x + {ident}\ndz_dt = Conditional(Gt({ident}, 0), -z, z) + v2*w\ndw_dt = {ident} - w*abs(x)\n")
+                f"dx_dt = -q*x + {ident}\ndz_dt = Conditional(Gt({ident}, 0), -z, z) + v2*w\ndw_dt = {ident} - w*abs(x) + z**3 + Mod(z, 2.0)\n")
     if role == "unread_state":
         # an accumulator: assigned by every scheme, read by no expression (so remove_unused might drop its binding)
         return (f"states(x=0.5, z=2, {ident}=1)\nparameters(p=1.5, q=0.25)\nu = p*x + z\n"
                 f"dx_dt = -q*x + u\ndz_dt = Conditional(Gt(x, 0), -z, z) + x\nd{ident}_dt = u - q\n")
     if role == "unread_intermediate":
         return (f"states(x=0.5, z=2, w=1)\nparameters(p=1.5, q=0.25)\nu = p*x + z\n{ident} = u*u - w\n"
-                f"dx_dt = -q*x + u\ndz_dt = Conditional(Gt(x, 0), -z, z) + x*w\ndw_dt = u - w*abs(x)\n")
+                f"dx_dt = -q*x + u\ndz_dt = Conditional(Gt(x, 0), -z, z) + x*w\ndw_dt = u - w*abs(x) + z**3 + Mod(z, 2.0)\n")
     if role == "unread_parameter":
         return (f"states(x=0.5, z=2, w=1)\nparameters(p=1.5, q=0.25, {ident}=3)\nu = p*x + z\n"
-                f"dx_dt = -q*x + u\ndz_dt = Conditional(Gt(x, 0), -z, z) + x*w\ndw_dt = u - w*abs(x)\n")
+                f"dx_dt = -q*x + u\ndz_dt = Conditional(Gt(x, 0), -z, z) + x*w\ndw_dt = u - w*abs(x) + z**3 + Mod(z, 2.0)\n")
     return (f"states(x=0.5, z=2, w=1)\nparameters(p=1.5, q=0.25)\n{ident} = p*x + z\nv2 = {ident}*{ident} + 1\n"
-            f"dx_dt = -q*x + {ident}\ndz_dt = Conditional(Gt({ident}, 0), -z, z) + v2*w\ndw_dt = {ident} - w*abs(x)\n")
+            f"dx_dt = -q*x + {ident}\ndz_dt = Conditional(Gt({ident}, 0), -z, z) + v2*w\ndw_dt = {ident} - w*abs(x) + z**3 + Mod(z, 2.0)\n")
 
 
 def observe(text, backend, ident_map, ru=False):
@@ -173,7 +173,8 @@ def main(argv=None):
     rng = random.Random(a.seed)
     pool = GENERATOR_NAMES + PY_NAMES + C_NAMES + MATH_NAMES + SHAPES
     if a.tier == "quick":
-        idents = GENERATOR_NAMES + rng.sample(PY_NAMES, 4) + rng.sample(C_NAMES, 4) + rng.sample(MATH_NAMES, 4) + rng.sample(SHAPES, 3)
+        idents = GENERATOR_NAMES + ["pow", "fmod"] + rng.sample([x_ for x_ in PY_NAMES], 4) + rng.sample([x_ for x_ in C_NAMES if x_ not in ("pow", "fmod")], 3) \
+            + rng.sample(MATH_NAMES, 4) + rng.sample(SHAPES, 3)
     else:
         idents = pool
     core.CASE_SECONDS = 120
@@ -190,7 +191,7 @@ def main(argv=None):
             ref_text = model_text(fresh, role)
             backends = ["numpy"]
             h = hash((ident, role, a.seed))
-            if a.tier != "quick" or h % 4 == 0 or ident in ("double", "const", "restrict", "values", "states"):
+            if a.tier != "quick" or h % 4 == 0 or ident in ("double", "const", "restrict", "values", "states", "pow", "fmod", "fabs", "floor", "M_PI"):
                 backends.append("C")
             if a.tier != "quick" or h % 5 == 1 or ident in ("jax", "numpy", "lambda") or ident.startswith("_values_"):
                 backends.append("jax")
